@@ -20,7 +20,7 @@ use crate::config::RegExpConfig;
 use crate::dfa::Dfa;
 use crate::expression::Expression;
 use itertools::Itertools;
-use regex::Regex;
+use regex::{Regex, RegexBuilder};
 use std::cmp::Ordering;
 use std::fmt::{Display, Formatter, Result};
 
@@ -40,27 +40,31 @@ impl<'a> RegExp<'a> {
         let mut ast = Expression::from(dfa, config);
 
         if config.is_start_anchor_disabled && config.is_end_anchor_disabled {
-            let mut regex = Self::convert_expr_to_regex(&ast, config);
+            // The check is skipped if the expression is not meant for the regex crate
+            // (surrogate pairs) and therefore cannot be compiled.
+            if let Some(mut regex) = Self::convert_expr_to_regex(&ast, config) {
+                if config.is_verbose_mode_enabled {
+                    // Remove line breaks before checking matches, otherwise check will be incorrect.
+                    regex =
+                        Self::compile_regex(&regex.to_string().replace('\n', "")).unwrap_or(regex);
+                }
 
-            if config.is_verbose_mode_enabled {
-                // Remove line breaks before checking matches, otherwise check will be incorrect.
-                regex = Regex::new(&regex.to_string().replace('\n', "")).unwrap();
-            }
+                if !Self::is_each_test_case_matched_after_rotating_alternations(
+                    &regex, &mut ast, test_cases,
+                ) {
+                    dfa = Dfa::from(&grapheme_clusters, false, config);
+                    ast = Expression::from(dfa, config);
 
-            if !Self::is_each_test_case_matched_after_rotating_alternations(
-                &regex, &mut ast, test_cases,
-            ) {
-                dfa = Dfa::from(&grapheme_clusters, false, config);
-                ast = Expression::from(dfa, config);
-                regex = Self::convert_expr_to_regex(&ast, config);
-
-                if !Self::regex_matches_all_test_cases(&regex, test_cases) {
-                    let mut exprs = vec![];
-                    for cluster in grapheme_clusters {
-                        let literal = Expression::new_literal(cluster, config);
-                        exprs.push(literal);
+                    if !Self::convert_expr_to_regex(&ast, config)
+                        .is_some_and(|regex| Self::regex_matches_all_test_cases(&regex, test_cases))
+                    {
+                        let mut exprs = vec![];
+                        for cluster in grapheme_clusters {
+                            let literal = Expression::new_literal(cluster, config);
+                            exprs.push(literal);
+                        }
+                        ast = Expression::new_alternation(exprs, config);
                     }
-                    ast = Expression::new_alternation(exprs, config);
                 }
             }
         }
@@ -94,13 +98,18 @@ impl<'a> RegExp<'a> {
                 .is_ok_and(|regex| regex.is_match(test_case))
     }
 
-    fn convert_expr_to_regex(expr: &Expression, config: &RegExpConfig) -> Regex {
+    fn convert_expr_to_regex(expr: &Expression, config: &RegExpConfig) -> Option<Regex> {
         if config.is_output_colorized {
             let color_replace_regex = Regex::new("\u{1b}\\[(?:\\d+;\\d+|0)m").unwrap();
-            Regex::new(&color_replace_regex.replace_all(&expr.to_string(), "")).unwrap()
+            Self::compile_regex(&color_replace_regex.replace_all(&expr.to_string(), ""))
         } else {
-            Regex::new(&expr.to_string()).unwrap()
+            Self::compile_regex(&expr.to_string())
         }
+    }
+
+    fn compile_regex(pattern: &str) -> Option<Regex> {
+        // Many test cases sharing prefixes produce deeply nested groups.
+        RegexBuilder::new(pattern).nest_limit(u32::MAX).build().ok()
     }
 
     fn regex_matches_all_test_cases(regex: &Regex, test_cases: &[String]) -> bool {
